@@ -5,74 +5,74 @@ V = os.path.dirname(os.path.dirname(os.path.abspath(__file__)))
 
 # id: (level, engine, technique, level text, level note, design section)
 CHECKS = {
- "C10": ("fault_enumeration", "e3a",
-  "exhaustive fault and crash-point enumeration at syscall granularity on the real binary: an LD_PRELOAD interposer numbers every open/write/rename/close on the dump folder; every answer of the environment alphabet at every call (deviation bound 1 complete, bound 2 on the small world), a kill before every call, every input fault at every height, and a byte-granular RLIMIT_FSIZE sweep",
-  "For csvdump, unspentcsvdump and balances on a small world (all output written at completion) and a large one (4 MB buffers overflow mid-run): exit 0 implies all final-named files present, identical to the undisturbed run, no *.tmp; a failed write/open or unreadable block implies non-zero exit, the failing height reported, no final-named file; at every crash point every existing final-named file is complete. The prefix of intercepted calls before the deviation must equal the recorded fault-free sequence (else machinery error).",
-  "Crash = _exit at a syscall boundary (what SIGKILL leaves: page cache intact); power-loss durability is not claimed by the property. rename/close failures are judged only by 'whatever has a final name is complete'.", "6/C10"),
- "C13": ("model_checking", "e3b",
-  "stateless DFS over ALL item-level schedules of the two nested parallel regions, executed on the repository's own code with the crate rayon replaced by a controlled-scheduler model (baton scheduler on real threads, recorded choice points, no partial-order reduction); plus BFS over all histories (depth 3) of runs sharing dump folder and data directory on the real binary",
-  "Every schedule of worlds 1x4, 2x2, 3x1 (txs x outputs) and a two-block world, on bitcoin and litecoin (15 520 complete in-process runs in quick; 2x3, 4x1 and 3x2 = 277 200 in thorough), through csvdump / simplestats / opreturn (and unspent / balances where affordable): each observation must equal schedule 0's, which must equal the model; measured schedule counts equal the closed-form number of linear extensions. All 258 run sequences x 3 initial dump-folder states x {1,16} threads on the real binary: results equal fresh-folder results, other files untouched, blk/xor files and index content unchanged. A free-running real-rayon pass (1..64 threads, blocks of hundreds of txs) is included as labelled sampling.",
-  "The scheduler model over-approximates rayon's documented ordering freedom at item granularity; interleavings inside one closure are not explored (closures hold no synchronisation; safe Rust excludes data races). A canary closure must show all 6 orders or the run is a machinery error.", "6/C13"),
- "C17": ("model_checking", "e3a",
-  "all set partitions of the heights into blk files x range shapes; the real binary's syscall trace (LD_PRELOAD interposer: open/close of blk files interleaved with per-height markers) is replayed through the open-set automaton of the statement and its peak compared with the model's overlap number; plus black-box runs under a calibrated RLIMIT_NOFILE",
-  "For every one of the Bell(6)=203 (thorough Bell(8)=4140) height->file assignments and 4 range shapes the trace must satisfy: after the block of height h is delivered no open blk file has its highest block <= h, and the peak number of open blk files equals the overlap number; the same run must succeed with RLIMIT_NOFILE = N1 + overlap - 1 (N1 calibrated on the single-file layout with the same binary); 200 and 1200 disjoint one-block files run under N1 with trace peak 1.",
-  "Trusted: the interposer sees every open/close (Rust std uses libc open64/close). 'Height yet to come' is read against the whole index.", "6/C17"),
- "C11": ("model_checking", "e2",
-  "the XOR reader as a state machine: ALL operation sequences up to depth 3 (thorough 4) over a 63-operation alphabet x 14 keys x 5 buffer capacities executed on the real XorReader<seek_bufread::BufReader> and compared step by step with a plain-slice reference; plus whole-program differential runs (obfuscated vs plaintext directory) over all layouts of C03",
-  "17.8 million (quick) operation sequences on the real reader type built exactly as BlkFile::open builds it, every returned byte and position compared; and ~3500 runs of the real binary over all arrangements of the blocks in <=3 files, 8 keys, blocks larger than the 32 KiB buffer and >4 GiB sparse offsets, each compared with the plaintext directory's output and the model.",
-  "Seeks to negative positions are not executed (never needed to visit a block; seek_bufread panics on them in debug builds). Empty xor.dat is outside the statement.", "6/C11"),
- "C14": ("exploration", "e2",
-  "totality sweep: every script of the C05/C06 families plus length/encoding extremes evaluated in-process under catch_unwind with overflow checks for all 8 coins; ~300 adversarial strings injected into scriptPubKey / scriptSig / witness items of a host chain and run through all callbacks of the real binary with masked comparison against the model",
-  "4.3 million in-process evaluations (no panic allowed) and 864 whole-program worlds (8 coins x 3 fields x callbacks x batches of 50 strings, bisected on failure): exit 0, no panic text, and all rows/figures outside the injected cell equal the model.",
-  "Dev-profile semantics (overflow checks on). Value sums kept < 2^63. Strings up to 100 KB.", "6/C14"),
- "C15": ("exploration", "e1",
-  "bounded-exhaustive enumeration of chains (all timestamp sequences over {1,1000,4e9} of length 1..4 x 5 transaction mixes, reward-boundary heights, every script class) run through simplestats of the real binary; every figure of the parsed report compared with an exact integer/rational recomputation; get_mean exhaustively on all short sequences over {0,1,2^31,2^32-1}",
-  "826 whole-program runs + 341 in-process get_mean evaluations: integers must be equal, printed decimals must lie within half a unit of the last printed digit of the exact rational, type lines are compared as a map, ties resolve to the first transaction.",
-  "Not covered: value sums >= 2^64, header time 0 (the code's 'no previous block' sentinel), coinbases without outputs.", "6/C15"),
+ "C01": ("exploration", "e1",
+  "bounded-exhaustive enumeration of chain/transaction shapes (full product of a 256-shape alphabet, ordered shape pairs, CompactSize and integer boundary sweeps, items up to 2.5 MiB) executed on the real binary and compared byte-for-byte with an independent serialiser/hasher model",
+  "Every world of the stated grammar is materialised (blk file + LevelDB index) and dumped by the binary built from the working tree; all four CSV files must equal the reference rendering byte for byte, file names and the completion totals included, with and without --verify. Quick: product on 4 coins, all 8 coins for the base shape, 7 count/length dimensions x {0xfc,0xfd,0xfe,0xffff,0x10000}, scripts / witness items of 1 MiB+1 and 2.5 MiB, u32/u64 field extremes, stored length prefix different from the serialised length.",
+  "Trusted: SHA-256/RIPEMD-160 (bitcoin_hashes), rusty-leveldb. Not covered: counts >= 2^32, non-canonical CompactSize, versions >= 2^31.", "6/C01"),
+ "C02": ("model_checking", "e1",
+  "explicit enumeration of the complete option space (tip x --start x --end x callback) executed on the real binary, compared with a reference model; differential slice law; dirty-folder and long-chain variants",
+  "Every accepted (--start, --end) combination for every tip height up to 6 (thorough 10), for all five callbacks - the file-producing ones also with the leftovers of an aborted whole-chain dump in the dump folder - plus a 300-block (thorough 1000) chain with ranges around height 256 and the same range shapes on sparse indexes at VarInt-width, halving and >32-bit heights: delivered heights, file names, declared last height and per-callback output must equal the reference model run on exactly heights s..min(e,T); csvdump/opreturn output of a range must equal the slice of the whole-chain output.",
+  "Trusted: rusty-leveldb as index writer/reader, SHA-256. One chain shape per tip (every height contributes to every callback).", "6/C02"),
+ "C03": ("exploration", "e1",
+  "exhaustive enumeration of physical layouts (all ordered arrangements of n blocks into <=3 files x gap kinds x index storage forms, a second chain of equal-sized blocks for cross-file offset coincidences, VarInt-boundary sweeps of file numbers and offsets incl. sparse >4 GiB, 70 000 blocks in one file) executed on the real binary; every layout must reproduce the model output of the logical chain",
+  "All n!*C(n+2,2) arrangements (n=4 quick, n=5 thorough) with garbage / fake-magic / unindexed-block gaps, log-only / compacted / overwritten / reopened index, junk keys and foreign directory entries; the same for a chain whose blocks (and gap blocks) all have the same size; one-dimension sweeps over every Core-VarInt width boundary for file numbers (up to 2^64-1) and data offsets (up to 5 GiB sparse); file-name paddings; 68 000 + 2 000 blocks in two files: csvdump output must equal the layout-independent model, hence be identical across layouts.",
+  "Trusted: rusty-leveldb (also used to write the index). Not covered: ambiguous duplicate file numbers, symlinks.", "6/C03"),
+ "C04": ("model_checking", "e1",
+  "explicit enumeration of block-index histories (active chain + every set of <=2 (thorough 3) competitor/header-only records, both LevelDB key orders, three write histories, --end at competitor heights under 10 HashMap iteration orders) executed on the real binary and compared with the model of the active chain",
+  "For an active chain of 5 blocks, every set of extra records drawn from 26 singles (header-only at/below/beyond the tip, stale sibling with data, failed block with data, FAILED_CHILD header, reorged-out branch, invalidated branch reaching above the tip, never-connected blocks above the tip), each competitor's hash ground to sort before and after the active block's key: csvdump and unspentcsvdump must equal the model of the active chain, rows must be prev-linked and no competitor txid may appear.",
+  "Trusted: rusty-leveldb. Excluded: two fully validated tips of equal height; adversarial header bytes in header-only records.", "6/C04"),
  "C05": ("exploration", "e2",
   "complete enumeration of byte-string families (all scripts of length <=2, every 1-byte mutation/truncation/extension of every template, witness and multisig lookalike grids, all token sequences up to length 4/5) evaluated in-process by the repository's own eval_from_bytes and compared with an independent byte-level reference classifier with own Base58Check/Bech32(m) codecs; bound to the binary's output by class-representative worlds",
-  "2.2 million (quick) scripts per run cover every listed family completely on bitcoin and testnet3; type label and address must equal the reference rules, addresses are additionally decoded by the model's own decoders on mismatch. One world per network with a representative of every class is run through all five callbacks of the real binary so that what is printed is what was evaluated.",
+  "2.2 million (thorough 10.7 million) scripts per run cover every listed family completely on bitcoin and testnet3; type label and address must equal the reference rules, addresses are additionally decoded by the model's own decoders on mismatch. One world per network with a representative of every class is run through all five callbacks of the real binary so that what is printed is what was evaluated.",
   "Trusted: SHA-256/RIPEMD-160. Grey zones left open by the text (v0 witness programs of illegal length: label; empty multisig keys) are not judged beyond 'no address'. Random byte strings are not sampled.", "6/C05"),
  "C06": ("exploration", "e2",
   "complete enumeration of byte-string families incl. every push encoding for every template slot x 15 payload lengths x truncation points, NOP insertion at every token boundary, huge PUSHDATA lengths, on all 6 fork coins, evaluated in-process against a reference push-rule tokeniser + template matcher; bound to the binary by class-representative worlds",
-  "2.6 million scripts per run on the six fork coins; type, address (coin version byte, 0x05 for P2SH) and OP_RETURN payload must equal the reference; no evaluation may panic or yield an Error pattern.",
+  "2.6 million (thorough 27 million) scripts per run on the six fork coins; type, address (coin version byte, 0x05 for P2SH) and OP_RETURN payload must equal the reference; no evaluation may panic or yield an Error pattern.",
   "Trusted: SHA-256/RIPEMD-160. NOP set = 0x61, 0xb0..0xb9.", "6/C06"),
- "C16": ("exploration", "e2",
-  "full product payload length x content class x push form evaluated in-process and, embedded in chains, through the opreturn callback of the real binary with several range shapes; stdout lines compared with the model's list",
-  "1020 (coin, script) evaluations in-process plus 20 whole-program runs (4 coins x 5 ranges, 3 blocks, ~65 transactions, every payload script as an output interleaved with non-OP_RETURN outputs): the printed (height, txid, payload) lines must be exactly the model's, in chain order.",
-  "Payloads with CR/LF are excluded (one line per output would be ill-defined). Other OP_RETURN shapes are don't-care.", "6/C16"),
- "C04": ("model_checking", "e1",
-  "explicit enumeration of block-index histories (active chain + every set of <=2 competitor/header-only records, both LevelDB key orders, several write histories) executed on the real binary and compared with the model of the active chain",
-  "For an active chain of 5 blocks, every set of up to two extra records (header-only at/below/beyond the tip, stale sibling with data, failed block with data, FAILED_CHILD header, reorged-out two-block branch), with each competitor's hash ground to sort before and after the active block's key, written as log-only / header-then-upgrade across a compaction / table-only index: csvdump and unspentcsvdump must equal the model of the active chain, rows must be prev-linked and no competitor txid may appear.",
-  "Trusted: rusty-leveldb. Excluded: two fully validated tips of equal height; adversarial header bytes in header-only records.", "6/C04"),
  "C07": ("model_checking", "e1",
-  "explicit-state enumeration of all spend histories of a bounded grammar (no state merging), each executed on the real binary and compared with a reference UTXO state machine",
-  "Every history of the grammar (3 blocks; coinbases A/B/duplicate txid; up to 2 (quick) or 3 (thorough) non-coinbase transactions in any block; inputs drawn from earlier outputs, later outputs, unknown txids, out-of-range indices and already-referenced outpoints; outputs from address-bearing, OP_RETURN, bare multisig and zero-value kinds) is materialised and dumped with unspentcsvdump; the row set, header, duplicates, file name and summary totals must equal the model's UTXO map. Output-index width sweeps (255/256/65535/65536), --start ranges and two more coins are included.",
+  "explicit-state enumeration of all spend histories of a bounded grammar (no state merging), each executed on the real binary and compared with a reference UTXO state machine; plus scale worlds",
+  "Every history of the grammar (3 blocks; coinbases A/B/duplicate txid; up to 2 (quick) or 3 (thorough) non-coinbase transactions in any block; inputs drawn from earlier outputs, later outputs, unknown txids, out-of-range indices and already-referenced outpoints; outputs from address-bearing, OP_RETURN, bare multisig and zero-value kinds) is materialised and dumped with unspentcsvdump; the row set, header, duplicates, file name and summary totals must equal the model's UTXO map. Output-index width sweeps (255/256/65535/65536), values near 2^64, 250 000 unspent outputs, --start ranges and two more coins are included.",
   "Trusted: SHA-256/RIPEMD-160, rusty-leveldb. Bound: 3 blocks, <=2/3 non-coinbase txs with the output-pattern restrictions stated in the evidence; long random histories are not sampled (different family).", "6/C07"),
  "C08": ("model_checking", "e1",
   "same explicit-state history enumeration as C07, run through balances and unspentcsvdump; balances compared with the model and with the aggregation of the observed unspent dump (differential)",
-  "Every history of the C07 grammar extended with P2PK outputs of the key behind address A (same address through two script types) is run through both callbacks: balances must list each address with >=1 unspent output exactly once with the exact sum, and must equal the per-address aggregation of the unspent dump of the same world and range.",
-  "As C07. Sums stay far below 2^64 (values of a few coins).", "6/C08"),
+  "Every history of the C07 grammar extended with P2PK outputs of the key behind address A (same address through two script types) is run through both callbacks: balances must list each address with >=1 unspent output exactly once with the exact sum, and must equal the per-address aggregation of the unspent dump of the same world and range; scale worlds: sums beyond 2^32 / 2^53 / near 2^64, 3000 outputs to one address, 250 000 unspent outputs.",
+  "As C07.", "6/C08"),
  "C09": ("fault_enumeration", "e1",
-  "exhaustive single-fault enumeration: every single-bit flip of every prev-hash, merkle-root and transaction byte of every block of small chains (plus block swaps, wrong genesis, --start offsets) injected into the stored data and run through the real binary with --verify; consistent chains of every small merkle-tree shape must pass",
-  "For 4-block chains with 1, 2 and 3 transactions per block every bit of every covered byte is flipped, one at a time, in the materialised blk file and the real binary is run with --verify: it must exit non-zero, leave no final-named file and name the corrupted height. 120 consistent chains (tx counts 1..17, 31..33, 64, 65; all 8 coins; --start 0..2; AuxPoW) must be accepted with model-equal output.",
-  "Trusted: SHA-256. A panic/abort caused by a flipped length field counts as rejection (counted separately). Not covered: multi-bit corruptions other than swaps; sibling blocks with the same parent (accepted by the statement's iff).", "6/C09"),
+  "exhaustive single-fault enumeration: every single-bit flip of every prev-hash, merkle-root and transaction byte of every block of small chains (plus block swaps, wrong genesis, --start offsets) injected into the stored data and run through the real binary with --verify; consistent chains of every small merkle-tree shape must pass; utils::merkle_root in-process for every leaf count up to 1100 (thorough 5000)",
+  "For 4-block chains with 1, 2 and 3 (thorough also 4, 5, 8) transactions per block every bit of every covered byte is flipped, one at a time, in the materialised blk file and the real binary is run with --verify: it must exit non-zero, leave no final-named file and name the corrupted height. 120 consistent chains (tx counts 1..17, 31..33, 64, 65; all 8 coins; --start 0..2; AuxPoW) must be accepted with model-equal output.",
+  "Trusted: SHA-256. A panic/abort caused by a flipped length field counts as rejection (counted separately). Heights the run declares outside its processed range are not judged (C02). Not covered: multi-bit corruptions other than swaps; sibling blocks with the same parent.", "6/C09"),
+ "C10": ("fault_enumeration", "e3a",
+  "exhaustive fault and crash-point enumeration at syscall granularity on the real binary: an LD_PRELOAD interposer numbers every open/write/rename/close on the dump folder; every answer of the environment alphabet at every call (deviation bound 1 complete, bound 2 on the small world), a kill before every call, every input fault at every height, a byte-granular RLIMIT_FSIZE sweep, and a recovery run after every failed or killed run",
+  "For csvdump, unspentcsvdump and balances on a small world (all output written at completion) and a large one (120 000 outputs: 4 MB buffers overflow mid-run): exit 0 implies all final-named files present, identical to the undisturbed run, no *.tmp; a failed write/open or unreadable block implies non-zero exit, the failing height reported, no final-named file; at every crash point every existing final-named file is complete; an undisturbed shorter run in the folder of a failed/killed run is complete and identical to a fresh-folder run. The prefix of intercepted calls before the deviation must equal the recorded fault-free sequence (else machinery error).",
+  "Crash = _exit at a syscall boundary (what SIGKILL leaves: page cache intact); power-loss durability is not claimed by the property. rename/close failures are judged only by 'whatever has a final name is complete'.", "6/C10"),
+ "C11": ("model_checking", "e2",
+  "the XOR reader as a state machine: ALL operation sequences up to depth 3 (thorough 4) over the operations BlkFile::read_block issues (Seek(Start p), Read(n), ReadExact(n)) x 14 keys x 5 buffer capacities executed on the real XorReader<seek_bufread::BufReader> and compared step by step with a plain-slice reference; plus whole-program differential runs (obfuscated vs plaintext directory) over all layouts of C03",
+  "14.6 million (thorough 51 million) operation sequences on the real reader type built exactly as BlkFile::open builds it, every returned byte and position compared; and ~3500 runs of the real binary over all arrangements of the blocks in <=3 files, 8 keys, blocks larger than the 32 KiB buffer and >4 GiB sparse offsets, each compared with the plaintext directory's output.",
+  "Relative seeks are not in the alphabet (the parser never issues them; seek_bufread 1.2.2 mishandles Seek(Current(-d)) after a flushing seek - a library defect outside the statement). Empty xor.dat is outside the statement.", "6/C11"),
  "C12": ("exploration", "e1",
   "bounded-exhaustive enumeration of AuxPoW section shapes and block-version orders executed on the real binary with --verify and compared with a model that never sees the section",
-  "All 27 orders of below/at/above-threshold versions in 3-block namecoin and dogecoin chains, the full product of parent-coinbase form x branch lengths {0,1,2}^2 x masks, long-branch sweeps across the 0xfd boundary, and the six non-AuxPoW coins with versions around both thresholds: csvdump --verify must succeed and equal the model (hash over the 80-byte header, transaction list after the section).",
-  "Trusted: SHA-256, rusty-leveldb. Versions >= 2^31 not used (the code compares unsigned, Core signed; the statement only names the thresholds).", "6/C12"),
- "C01": ("exploration", "e1",
-  "bounded-exhaustive enumeration of chain/transaction shapes (full product of a 256-shape alphabet, ordered shape pairs, CompactSize and integer boundary sweeps) executed on the real binary and compared byte-for-byte with an independent serialiser/hasher model",
-  "Every world of the stated grammar is materialised (blk file + LevelDB index) and dumped by the binary built from the working tree; all four CSV files must equal the reference rendering byte for byte, file names and the completion totals included, with and without --verify.",
-  "Trusted: SHA-256/RIPEMD-160 (bitcoin_hashes), rusty-leveldb. Not covered: counts >= 2^32, non-canonical CompactSize, versions >= 2^31.", "6/C01"),
- "C03": ("exploration", "e1",
-  "exhaustive enumeration of physical layouts (all ordered arrangements of n blocks into <=3 files x gap kinds x index storage forms, VarInt-boundary sweeps of file numbers and offsets incl. sparse >4 GiB) executed on the real binary; every layout must reproduce the model output of the logical chain",
-  "All n!*C(n+2,2) arrangements (n=3 quick, n=4 thorough) with garbage / fake-magic / unindexed-block gaps, log-only / compacted / overwritten / reopened index, junk keys and foreign directory entries, plus one-dimension sweeps over every Core-VarInt width boundary for file numbers (up to 2^64-1) and data offsets (up to 5 GiB sparse) and file-name paddings: csvdump --verify output must equal the layout-independent model, hence be identical across layouts.",
-  "Trusted: rusty-leveldb (also used to write the index). Not covered: ambiguous duplicate file numbers, symlinks.", "6/C03"),
- "C02": ("model_checking", "e1",
-  "explicit enumeration of the complete option space (tip x --start x --end x callback) executed on the real binary, compared with a reference model; differential slice law",
-  "Every accepted (--start, --end) combination for every tip height up to the bound, for all five callbacks, plus the same range shapes on sparse indexes at VarInt-width, halving and >32-bit heights, is executed on the binary built from the working tree; delivered heights, file names, declared last height and per-callback output must equal the reference model run on exactly heights s..min(e,T).",
-  "Trusted: rusty-leveldb as index writer/reader, SHA-256. Bound: tip <= 4 (quick) / 7 (thorough); one chain shape per tip (every height contributes to every callback).", "6/C02"),
+  "All 27 orders of below/at/above-threshold versions in 3-block namecoin and dogecoin chains, the full product of parent-coinbase form x branch lengths {0,1,2}^2 x masks, long-branch sweeps across the 0xfd boundary (thorough up to 1000), and the six non-AuxPoW coins with 11 versions around both thresholds and up to 0xffffffff: csvdump --verify must succeed and equal the model (hash over the 80-byte header, transaction list after the section).",
+  "Trusted: SHA-256, rusty-leveldb. Versions >= 2^31 are used only on coins without AuxPoW (the statement is unambiguous there).", "6/C12"),
+ "C13": ("model_checking", "e3b",
+  "stateless DFS over ALL item-level schedules of the parallel regions, executed on the repository's own code with the crate rayon replaced by a controlled-scheduler model (baton scheduler on real threads, recorded choice points, no partial-order reduction); plus BFS over all histories (depth 3) of runs sharing dump folder and data directory on the real binary",
+  "Every schedule of worlds 1x4, 2x2, 3x1 (txs x outputs; non-coinbase txs of equal size and value so that tie-dependent figures show) and a two-block world, on bitcoin and litecoin (15 520 complete in-process runs in quick; 2x3, 4x1 and 3x2 = 277 200 in thorough, 2.6 million runs), through csvdump / simplestats / opreturn (and unspent / balances where affordable): each observation must equal schedule 0's; measured schedule counts equal the closed-form number of linear extensions. All 258 run sequences x 3 initial dump-folder states x {1,16} threads on the real binary: results equal fresh-folder results, other files untouched, blk/xor files and index content unchanged. Labelled sampling: a free-running real-rayon pass (1..64 threads, blocks of hundreds of txs, compared with the single-thread run) and, in thorough, Miri's data-race detector on the decode path.",
+  "The scheduler model over-approximates rayon's documented ordering freedom at item granularity; interleavings inside one closure are not explored (closures hold no synchronisation; safe Rust excludes data races). A canary closure must show all 6 orders or the run is a machinery error. Whether the common result is right is left to C01/C07/C08/C15/C16.", "6/C13"),
+ "C14": ("exploration", "e2",
+  "totality sweep: every script of the C05/C06 families plus length/encoding extremes evaluated in-process under catch_unwind with overflow checks for all 8 coins; ~300 adversarial strings injected into scriptPubKey / scriptSig / witness items of a host chain and run through all callbacks of the real binary with masked comparison against the model",
+  "4.3 million (thorough 12.7 million) in-process evaluations (no panic allowed) and 864 whole-program worlds (8 coins x 3 fields x callbacks x batches of 50 strings, bisected on failure): exit 0, no panic text, and all rows/figures outside the injected cell equal the model (per-type lines are never judged here). Thorough repeats the whole-program part on the release-profile binary.",
+  "Dev-profile semantics (overflow checks on) in-process. Value sums kept < 2^63. Strings up to 100 KB.", "6/C14"),
+ "C15": ("exploration", "e1",
+  "bounded-exhaustive enumeration of chains (all timestamp sequences over {1,1000,4e9} of length 1..4 x 5 transaction mixes, reward-boundary heights, every script class, size prefixes summing beyond 2^32, chains of 4097 and 5000 blocks) run through simplestats of the real binary; every figure of the parsed report compared with an exact integer/rational recomputation; get_mean exhaustively on all short sequences over {0,1,2^31,2^32-1}",
+  "~1170 whole-program runs + 341 in-process get_mean evaluations: integers must be equal, printed decimals must lie within half a unit of the last printed digit of the exact rational, type lines are compared as a map, ties resolve to the first transaction. Thorough repeats everything on the release-profile binary.",
+  "Not covered: value sums >= 2^64, header time 0 (the code's 'no previous block' sentinel), coinbases without outputs.", "6/C15"),
+ "C16": ("exploration", "e2",
+  "full product payload length x content class x push form evaluated in-process and, embedded in chains, through the opreturn callback of the real binary with several range shapes; stdout lines compared with the model's list",
+  "1020 (coin, script) evaluations in-process plus 20 whole-program runs (4 coins x 5 ranges, 3 blocks, ~65 transactions with 7 payload outputs each, interleaved with non-OP_RETURN outputs): the printed (height, txid, payload) lines must be exactly the model's, in chain order.",
+  "Payloads with CR/LF are excluded from the grammar. Other OP_RETURN shapes are don't-care.", "6/C16"),
+ "C17": ("model_checking", "e3a",
+  "all set partitions of the heights into blk files x range shapes (also with stale blocks at file ends and with strided file numbers); the real binary's syscall trace (LD_PRELOAD interposer: open/close of blk files interleaved with per-height markers) is replayed through the open-set automaton of the statement and its peak compared with the model's overlap number; plus black-box runs under a calibrated RLIMIT_NOFILE",
+  "For every one of the Bell(6)=203 (thorough Bell(8)=4140) height->file assignments: 4 range shapes, a variant with a never-connected stale block appended to every file, and file numbers k*stride for strides 256, 4096, 65536, 2^32, 2^32+4096. The trace must satisfy: after the block of height h is delivered no open blk file has its highest active block <= h, and the peak number of open blk files equals the overlap number; the same run must succeed with RLIMIT_NOFILE = N1 + overlap - 1 (N1 calibrated on the single-file layout with the same binary); 200 and 1200 disjoint one-block files run under N1 with trace peak 1.",
+  "Trusted: the interposer sees every open/close (Rust std uses libc open64/close). 'Height yet to come' is read against the whole index. Output content is not judged here.", "6/C17"),
 }
 NOT_YET = {}
 
